@@ -203,6 +203,18 @@ func genBuffer(w *bufio.Writer, rng *prng, depth, n int, invalidRunes bool) {
 	for d := 1; d <= depth; d++ {
 		rec(nil, d)
 	}
+	// capacities beyond the 64 KiB above which free() drops a printer's buffer: a few fixed
+	// shapes only (an array of that size is costly in the memory-level model)
+	if !invalidRunes {
+		for _, pre := range [][]bop{{}, {{k: "w", s: "a"}}, {{k: "w", s: "a\n"}}, {{k: "w", s: ""}}, {{k: "m", n: 1}, {k: "w", s: "s"}}, {{k: "w", s: "\xe2"}}} {
+			for _, mid := range []bop{{k: "reset"}, {k: "take"}, {k: "takeb"}, {k: "len"}, {k: "rs"}, {k: "m", n: 1}} {
+				for _, post := range [][]bop{{{k: "w", s: "x"}}, {{k: "m", n: 0}, {k: "w", s: "y"}, {k: "len"}}} {
+					ops := append(append(append([]bop{}, pre...), bop{k: "grow", n: 70000}, mid), post...)
+					fmt.Fprintln(w, runManual(ops))
+				}
+			}
+		}
+	}
 	for i := 0; i < n; i++ {
 		l := 2 + rng.intn(14)
 		ops := make([]bop, l)
